@@ -79,6 +79,15 @@ def _remove_encoders(installed):
             del cls.post_text_encoder
 
 
+ENCODERS = {}
+
+
+def setup(params):  # pylint: disable=unused-argument
+    """run once per shard process, before the analysis starts (not once per path)"""
+    if not ENCODERS:
+        ENCODERS.update(_install_encoders())
+
+
 def _same_result(left, right):
     if isinstance(left, (bytes, str, int, tuple)) or left is None:
         return left == right
@@ -102,7 +111,7 @@ def purity(val: int) -> bool:
         return True
     names = [name for name in OBSERVERS if getattr(type(obj), name, None) is not None]
     first = {}
-    encoders = _install_encoders()
+    encoders = ENCODERS
     for name in names:
         first[name] = _observe(obj, name)
         if not deep_eq(obj, snapshot):
